@@ -804,6 +804,12 @@ public:
     void realTime_panic();
 
     /**
+     * @brief Release the notes that play an instrument of the given bank (the bank is about to be removed)
+     * @param instruments The 128 instrument entries of the bank
+     */
+    void releaseNotesOfBank(const OpnInstMeta *instruments);
+
+    /**
      * @brief Device switch (to extend 16-channels limit of MIDI standard)
      * @param track MIDI track index
      * @param data Device name
